@@ -391,6 +391,34 @@ func runC06(c *rt.Ctx) {
 	c.Require("pre-releases-sharing-memory", 1000)
 	c.Require("versions-parsed-from-one-buffer", 1000)
 
+	// pre-releases that agree in their first 8, 16 or 24 bytes (whole machine words) and go on differently: inside an
+	// identifier, at its end, at a separator, with digits, letters or hyphens
+	c.Parallel("shared-leading-blocks", 0, func(w *rt.W) {
+		heads := []string{"20230101", "snapshot", "rc-00000", "alpha.be", "1234567.", "a.b.c.d.", "2023010120230101", "snapshotsnapshot", "0.0.0.0.0.0.0.0.", "x-y-z-00", "abcdefgh12345678abcdefgh"}
+		tails := []string{"", "1", "11", "2", "12x", "x", "0", "00", ".1", ".x", "-", "-1", "9", "10", "a", ".0", "1.x", "z.1"}
+		n := 0
+		for _, h := range heads {
+			for _, ta := range tails {
+				for _, tb := range tails {
+					n++
+					if n%w.NShards != w.Shard {
+						continue
+					}
+					pa, pb := h+ta, h+tb
+					if !ref.ValidPre(pa) || !ref.ValidPre(pb) {
+						continue
+					}
+					a := sem.Ver{Major: 3, PreRelease: pa}
+					b := sem.Ver{Major: 3, PreRelease: pb, Build: "b"}
+					w.ClassN(c06Pair(w, a, b, true), 1)
+					w.ClassN("pre-releases-sharing-leading-blocks", 1)
+					w.NT(1)
+				}
+			}
+		}
+	})
+	c.Require("pre-releases-sharing-leading-blocks", 1500)
+
 	// cores
 	coreVals := []uint64{0, 1, 1 << 63, ^uint64(0) - 1, ^uint64(0), 2, 10, 1<<63 - 1, 1<<32 - 1, 1 << 32}
 	var preSubset []string
